@@ -33,6 +33,10 @@ A7_EXCEPTIONS = {
 }
 
 
+# functions audited under the argument values that every peer-reachable caller passes (checked below: literal 0 table size)
+SPECIALISED = {"h3::qpack::block::HeaderPrefix::get": {3: ("const", 0)}, "h3::qpack::block::HeaderPrefix::new": {4: ("const", 0)}}
+
+
 def run(ctx):
     prog = ctx.prog
     cg = callgraph.CallGraph(prog)
@@ -51,9 +55,18 @@ def run(ctx):
     for b in prog.bodies:
         if b.key not in reach or b.name == "fmt":
             continue
-        for bb, t, kind, status, detail in panics.audit_body(prog, b):
+        spec = SPECIALISED.get(b.key)
+        for bb, t, kind, status, detail in panics.audit_body(prog, b, env=spec):
             total += 1
             what = t.ckey if t.t == "call" else "%s %s" % (t.akind, t.aop or "")
+            if spec is not None and status == "open":
+                # reached with the argument values every reachable caller passes: the audited-table reason (dead under that
+                # specialisation) does not cover it, only a guard can
+                ctx.violation("C06-a", b.key, "%s %s" % (kind, (pa.short(what) if t.t == "call" else what.strip())),
+                              "`%s` in %s is executed when the function is called the way its only peer-reachable callers call it (literal table "
+                              "size 0) and no guard or operand range excludes the panic: a field-section prefix chosen by the peer can crash the "
+                              "endpoint (overflow checks are on in debug builds)" % (what, b.key), b.loc(t))
+                continue
             if status == "discharged":
                 auto += 1
                 ctx.ok("C06-a", "%s:%s:%s" % (b.key, kind, pa.short(what) if t.t == "call" else what.strip()), "guard: " + detail, b.loc(t))
@@ -85,6 +98,36 @@ def run(ctx):
         ctx.check(ok and stateless_only, "C06-a", key, "reachable callers pass the literal table size 0 (supports the `ds` table entries)",
                   "%s is called from %s with a table-size argument that is not the literal 0: the arithmetic behind its first branch becomes "
                   "peer-reachable" % (key, allc), str(allc))
+
+    # the `ubc` entry for AcceptRecvStream::into_stream relies on its sibling poll_type: every type for which into_stream reads the
+    # second varint (`id.expect`) must be a type for which poll_type does not answer Ready(Ok) before `id` is set
+    ins = ru.need(ctx, "C06-a", "h3::stream::AcceptRecvStream::into_stream")
+    pt = ru.need(ctx, "C06-a", "h3::stream::AcceptRecvStream::poll_type")
+    if ins and pt:
+        def ty_label(p):
+            labs = [t[2] for t in p.tests if t[1].endswith(".0") and ("param_1.ty" in t[1]) and t[3][0] != "discr" and not t[1].startswith("is_")]
+            return labs[0] if labs else None
+        need = set()
+        for p in [p for p in ru.all_paths(ctx, "C06-a", ins, max_visits=1) if p.end == "return"]:
+            if len(p.calls("core::option::Option::expect")) >= 2 or any("param_1.id" in pa.vfmt(e[3][0]) for e in p.calls("core::option::Option::expect", "core::option::Option::unwrap")):
+                need.add(ty_label(p))
+        gets, lacks = set(), set()
+        n_ok = 0
+        for p in [p for p in ru.all_paths(ctx, "C06-a", pt, max_visits=1) if p.end == "return" and p.ret_shape().startswith("Ready(Ok")]:
+            n_ok += 1
+            ty_set = any(pa.vfmt(e[4]) == "param_1.ty" and e[3][0] == "agg" and e[3][2] == "Some" for e in p.stores()) or \
+                [t[2] for t in p.tests if t[1].startswith("is_none") and "param_1.ty" in t[1]][:1] == ["false"]
+            ctx.check(bool(ty_set), "C06-a", pt.key, "Ready(Ok) only with the stream type resolved", "poll_type answers Ready(Ok(())) on a path that neither found nor stored `ty`: into_stream's `ty.expect` would panic", "", None, p.describe())
+            id_set = any(pa.vfmt(e[4]) == "param_1.id" and e[3][0] == "agg" and e[3][2] == "Some" for e in p.stores()) or \
+                [t[2] for t in p.tests if t[1].startswith("is_none") and "param_1.id" in t[1]][-1:] == ["false"]
+            (gets if id_set else lacks).add(ty_label(p))
+        ctx.floor("C06-a", "Ready(Ok) paths of poll_type", n_ok, 6)
+        ctx.floor("C06-a", "stream types for which into_stream reads the id", len(need), 1)
+        bad = sorted(str(x) for x in need if x in lacks or x not in gets)
+        ctx.check(not bad and None not in need, "C06-a", ins.key, "id.expect only for types whose second varint poll_type waits for",
+                  "into_stream reads `id` (expect) for stream type value(s) %s, but poll_type answers Ready(Ok(())) for them on a path that did not set `id` "
+                  "(types completed with id: %s, without: %s): a peer opening a uni stream of that type makes accept()/poll_close() panic"
+                  % (bad or sorted(map(str, need)), sorted(map(str, gets)), sorted(map(str, lacks))), "need=%s gets=%s" % (sorted(map(str, need)), sorted(map(str, gets))))
 
     # ------------------------------------------------------------------ C06-b
     wa = wake.WakeAnalysis(prog)
